@@ -280,6 +280,20 @@ PropertyValue(B, r, M) ==
                     SZero(K), (DOMAIN B.st[r.bc]) \X (DOMAIN B.st[r.kc]))
        IN FMul(FMul(ClassFactor(B.variant, r.bc), ClassFactor(B.variant, r.kc)), tot[r.order + 1])
 
+(* matrix-vector product  r_I = p_I p_J sum_J M_IJ Y_J  (unrestricted J,   *)
+(* p = 1/sqrt(n_o! n_v!)): in canonical labels p_I sqrt(n_o! n_v!)_J sum   *)
+MvpTable(B, r, M) ==
+  LET can == CanonMatrix(B, r.bc, r.kc, r.sub)
+      Lk == DOMAIN B.st[r.kc]
+      fac == FMul(Inv(ClassFactor(B.variant, r.bc)), ClassFactor(B.variant, r.kc))
+  IN TLCEval([x \in {<<4, Len(r.roles)>> \o t : t \in RoleDomain(r.roles, M)} |->
+       LET t == SubSeq(x, 3, Len(x))
+           b == LabelState(B, r.bc, Pick(t, r.roles, "bo"), Pick(t, r.roles, "bv"), B.K)
+       IN IF b.sign = 0 THEN 0
+          ELSE FMul(FMul(b.sign, fac),
+                    FoldSet(LAMBDA J, a : FAdd(a, FMul(can[<<b.lab, J>>][r.order + 1], AmplVal(M, r.yn, J))),
+                            0, Lk))])
+
 IsrModel(M0) ==
   LET M == RsptModel(M0)          \* amplitude tables for the derived expressions
       g == M.isr
@@ -288,6 +302,7 @@ IsrModel(M0) ==
                         PutTab(t, g.req[k].nid,
                                IF g.req[k].what \in {"T", "P"}
                                THEN ConstTab(PropertyValue(B, g.req[k], M))
+                               ELSE IF g.req[k].what = "V" THEN MvpTable(B, g.req[k], M)
                                ELSE RequestTable(B, g.req[k], M)),
                       M.tabs, 1..Len(g.req))
   IN [M EXCEPT !.tabs = tabs]
